@@ -59,6 +59,11 @@ def htmlText (t : Str) : Option Str := htmlData t.length t
 backslash escapes (single-quote variant) -/
 def urlCell (pr : Char → Bool) (url : Str) : Str := (pageEscape url).flatMap (reprChar pr '\'')
 
+/-- what a browser shows for the URL cell: the URL with `repr`'s backslash escapes on the
+characters that are not special (the special ones show as themselves) -/
+def shownUrl (pr : Char → Bool) (url : Str) : Str :=
+  url.flatMap fun c => if special.contains c then [c] else reprChar pr '\'' c
+
 /-- the outcomes for which the framework itself creates the error object with a fixed text (404,
 405, 500 for a crashing handler, hook or iterator, 400/413 through `errors_map`; 400 for an
 undecodable path arises whatever the outcome).  Not among them: `abort` (user text) and
